@@ -282,6 +282,7 @@ def replay(cond, args, extra):
     nsteps = n - len(first)
     steps = [STEPS[f] for f in first] + [STEPS[c[1]] for c in items[:nsteps]] + ["run"]
     it = iter(items[nsteps:])
-    ok, detail, imported = run_history(SHAPES[shape_i], steps, lambda m, label: min(next(it)[1], m - 1))
+    # a path that was cut short (class of a listed finding assumed away) has no recorded completion order: complete in order
+    ok, detail, imported = run_history(SHAPES[shape_i], steps, lambda m, label: min(next(it, (None, 0))[1], m - 1))
     fid = "imported-call-nodes-lack-subtree-rows" if (not ok and imported) else None
     return (not ok), detail, fid
